@@ -56,6 +56,9 @@ var c09Faults = []string{
 	"probe_unknown_type_reset", "probe_oversize_reset", "probe_garbage_reset", "probe_split_delivery", "probe_concurrent_streams",
 	"probe_several_requests_one_stream", "probe_ap_stored", "probe_ap_refused", "probe_target_first", "probe_requester_filtered",
 	"probe_final_probe_answered", "probe_graceful_close_after_eof", "probe_value_served", "probe_value_expired",
+	// c09_ids.go
+	"fault_odd_peer_id", "fault_overlong_peer_id", "fault_overlong_single_addr",
+	"probe_overlong_id_ap_refused", "probe_overlong_id_request_answered",
 }
 
 func init() {
